@@ -1144,6 +1144,30 @@ fn c14(r: &Runner) {
             div_cases(l, &nums[i], d);
         }
     });
+    // div_nx1 called directly: numerators of 1..=4 limbs (highest limb non-zero) x EVERY kind of one-word divisor - the
+    // boundary alphabet B64 and structureless words, normalised or not (the alphabets above only have the un-normalised
+    // divisor 1), incl. a leading limb smaller than / equal to / larger than the divisor
+    {
+        let mut ds: Vec<u64> = b64().into_iter().filter(|d| *d != 0).collect();
+        ds.extend(golden(40));
+        ds.extend([3, 5, 7, 10, 1_000_000_007, 0xffff_ffff, 0x1_0000_0001]);
+        ds.sort();
+        ds.dedup();
+        r.universe(&format!("div_nx1 directly: numerators of 1..=4 limbs x {} one-word divisors (normalised and not)", ds.len()), 0, ds.len(), |i, l| {
+            let d = ds[i];
+            let tops = [1u64, 2, d.wrapping_sub(1).max(1), d, d.wrapping_add(1).max(1), d / 2 + 1, u64::MAX, 1 << 63, 0x9E37_79B9_7F4A_7C15];
+            for len in 1..=4usize {
+                for &top in &tops {
+                    for low in [0u64, 1, u64::MAX, 0xC2B2_AE3D_27D4_EB4F] {
+                        let mut n = vec![low; len];
+                        n[len - 1] = top;
+                        l.states(1);
+                        k::exec(l, 0, K::div_nx1, &[vu(&n), V::N(d as u128)]);
+                    }
+                }
+            }
+        });
+    }
     // long slices: run shapes, every length pair 1..=12 x 1..=12
     let ys: &[u64] = if r.is_thorough() { &[0, 1, 2, 1 << 63, (1 << 63) + 1, u64::MAX - 1, u64::MAX] } else { &[0, 1, 1 << 63, u64::MAX] };
     let by_len: Vec<Vec<Limbs>> = (0..=12).map(|n| run_slices(n, ys)).collect();
